@@ -25,6 +25,6 @@ TEXT = {
     "C16": _p("8/C16", "Theorems (Properties/C16.lean, 19): cmp_spec - for canonical operands Cmp equals the order of the exact rational values with -Inf < finite < +Inf and -0 = +0 (Spec.cmpSV), independent of precision, mode, accuracy and mantissa length; reflexive, antisymmetric, transitive; consistent with Sign/zero/infinity classification. Nothing partial."),
     "C01": _t("8/C01"), "C02": _t("8/C02"), "C03": _t("8/C03"), 
     "C05": _t("8/C05"), "C14": _t("8/C14"), "C19": _t("8/C19"), "C20": _t("8/C20"),
-    "C15": _t("8/C15", "Partial by nature: math/big (SetFloat, Float) is not modelled; its error bounds are decided by the run against the exact oracle only."), "C11": _t("8/C11"), "C12": _t("8/C12"), "C13": _t("8/C13"), "C17": _t("8/C17"), "C06": _t("8/C06"), "C07": _t("8/C07"), "C18": _t("8/C18"),
+    "C15": _t("8/C15", "Partial by nature: math/big (SetFloat, Float) is not modelled; its error bounds are decided by the run against the exact oracle only."), "C11": _t("8/C11"), "C12": _t("8/C12"), "C13": _t("8/C13"), "C17": _t("8/C17"), "C06": _t("8/C06"), "C18": _t("8/C18"),
     "C08": _t("8/C08"),
 }
